@@ -124,6 +124,8 @@ def _add_lmf(
     progress.flash(f'Checking {source!s}')
     infos = lmf.scan_lexicons(source)
     if not infos:
+        # no lexicon to add, but an invalid file is still an error
+        lmf.load(source, progress_handler)
         progress.flash(f'{source}: No lexicons found')
         return
 
